@@ -287,3 +287,12 @@ Theorem code_shape_matches_model_round2 :
   /\ Gen.C01.processAttestation_commits_only_on_handler_success_and_returns_nil = true.
 Proof. exact code_shape2_proof. Qed.
 Print Assumptions code_shape_matches_model_round2.
+
+(** Round 3: the all-or-nothing wrapper of the four batch functions is tied to its RESULT: the
+    deferred commit reads the named error result, which every return statement assigns (a refactor
+    to a local variable lets a `return nil, fmt.Errorf(…)` commit a half-done build). *)
+Theorem deferred_commit_reads_the_result :
+  Gen.C01.deferred_commit_reads_named_result =
+    ["BuildOutgoingTXBatch"; "CancelOutgoingTXBatch"; "OutgoingTxBatchExecuted"; "UpdateBatchGasEstimate"]%string.
+Proof. exact code_shape3_proof. Qed.
+Print Assumptions deferred_commit_reads_the_result.
